@@ -226,19 +226,42 @@ def _reads_of_type(fv, tyname):
 
 
 def role_table(prog, fv):
+    """role -> set of (atom, value) under which it is produced.  Atoms are what is tested, not how it is spelled: named lets are
+    looked through and a `match` on a tuple of the tests reads like the if-chain."""
     tab = {}
-    brs = branches(fv)
+    brs = branches(fv, Renderer(fv, depth=12, through_names=True))
     for bi, si, s in fv.aggregates(re.compile(r"rustybgp_table::PeerRole")):
         v = s["rv"]["v"]
         conds = set()
-        for g, l, h in flat_guards(fv, bi, brs):
-            flds = [f for f in expr_fields(g) if f in ("route_server_client", "local_asn", "expected_remote_asn", "route_reflector_client")]
-            if g[0] == "call" and g[1].endswith("is_some_and") and ("confederation" in expr_vars(g) or "confederation" in expr_fields(g) or "confederation" in show(g, 200)):
-                flds = ["confederation.members"]
-            if not flds:
+
+        def atom_of(g):
+            flds = set(expr_fields(g))
+            if g[0] == "call" and g[1].endswith("is_some_and") and ("confederation" in expr_vars(g) or "confederation" in flds or "confederation" in show(g, 400)):
+                return "confed_member"
+            if "route_server_client" in flds:
+                return "rs_client"
+            if "route_reflector_client" in flds:
+                return "rr_client"
+            if g[0] == "bin" and g[1] in ("Eq", "Ne") and {"expected_remote_asn", "local_asn"} <= flds:
+                return "asn_eq:" + g[1]
+            if g[0] == "bin" and g[1] in ("Eq", "Ne") and "local_asn" in flds:
+                return "asn_nonzero:" + g[1]
+            return None
+        for g, l, h in flat_guards(fv, bi, brs, named=True):
+            if g[0] == "matches" and h == "not":
+                inner = {(atom_of(x), tuple(sorted(ll))) for x, ll in g[1]}
+                if inner == {("asn_nonzero:Ne", ("true",)), ("asn_eq:Eq", ("true",))}:
+                    conds.add(("same_asn", "false"))
+                elif all(a for a, _ in inner):
+                    conds.add(("not:" + ",".join(sorted("%s=%s" % (a, "|".join(ll)) for a, ll in inner)), "true"))
                 continue
-            op = g[1] if g[0] == "bin" else "bool"
-            conds.add(("+".join(sorted(set(flds))), op, "|".join(sorted(l))))
+            a = atom_of(g)
+            if a is None:
+                continue
+            conds.add((a, "|".join(sorted(l))))
+        if {("asn_nonzero:Ne", "true"), ("asn_eq:Eq", "true")} <= conds:
+            conds -= {("asn_nonzero:Ne", "true"), ("asn_eq:Eq", "true")}
+            conds.add(("same_asn", "true"))
         tab.setdefault(v, set()).update(conds)
     return tab
 
@@ -255,7 +278,7 @@ def check_roles(prog, av, r):
             r.ok("%s derived under the same tests in both copies (%d conditions)" % (role, len(ta[role])))
         else:
             r.fail(av.name, "role-disagreement:" + role, "role %s is derived under different conditions: session setup %s vs Peer::peer_role %s" % (role, sorted(ta[role] - tb[role]), sorted(tb[role] - ta[role])), av.loc())
-    if any(c[0] == "route_server_client" for c in ta["RsClient"]) and any("confederation" in c[0] for c in ta["ConfedEbgp"]) and any("route_reflector_client" in c[0] for c in ta["IbgpRrClient"]):
+    if any(c[0] == "rs_client" for c in ta["RsClient"]) and any("confed" in c[0] for c in ta["ConfedEbgp"]) and any("rr_client" in c[0] for c in ta["IbgpRrClient"]):
         r.ok("role tests read route_server_client, local/remote AS, route_reflector_client, confederation members")
     else:
         r.fail(av.name, "role-inputs", "the role derivation no longer reads the configured role inputs", av.loc())
